@@ -1,7 +1,8 @@
 // Unity build for C13 and C09: drives the REAL lexer of lib/src/lexer.c with scripted programs.
 //   L <id> <dochex|-> <chunking> <nranges> (sb sr sc eb er ec)*n | op op …
 //     chunking: w (rest of the document), c<k> (at most k bytes), s<p1,p2,…> (up to the next split point)
-//     ops: S start, A advance(false), K advance(true), M mark_end, F finish, R:<byte>:<row>:<col> reset
+//     ops: S start, A advance(false), K advance(true), M mark_end, F finish, R:<byte>:<row>:<col> reset,
+//          I set_input (again), C get_column (prints the column after the state)
 //     answer: <id> set=<0|1> trace=<state after each op, ';'-separated>
 //     state = bytes,row,col,idx,lookahead,size,eof,ts.bytes,ts.row,ts.col,te.bytes,te.row,te.col,chunk_start,chunk_size,colvalid,colvalue[,lookahead_end after F]
 //   D <id> <hex>  → <id> dec=<code point>,<return value>   (ts_decode_utf8 on the bytes)
@@ -69,19 +70,24 @@ int main(int argc, char **argv) {
     bool ok = ts_lexer_set_included_ranges(&lx, rs, n);
     ts_lexer_set_input(&lx, in);
     printf("%s set=%d trace=", id, ok ? 1 : 0);
-    int first = 1; uint32_t la_end = 0;
+    int first = 1; uint32_t la_end = 0; uint32_t col = 0;
     for (char *op = strtok(script, " "); op; op = strtok(NULL, " ")) {
       switch (op[0]) {
         case 'S': ts_lexer_start(&lx); break;
-        case 'A': lx.data.advance(&lx.data, false); break;
-        case 'K': lx.data.advance(&lx.data, true); break;
+        // at EOF with a chunk still set (possible after get_column at EOF) ts_lexer__advance would read
+        // included_ranges[count]: out of contract, the script skips the call (so does the Lean driver)
+        case 'A': if (!(lx.data.eof(&lx.data) && lx.chunk)) lx.data.advance(&lx.data, false); break;
+        case 'K': if (!(lx.data.eof(&lx.data) && lx.chunk)) lx.data.advance(&lx.data, true); break;
         case 'M': lx.data.mark_end(&lx.data); break;
         case 'F': ts_lexer_finish(&lx, &la_end); break;
+        case 'I': ts_lexer_set_input(&lx, in); break;
+        case 'C': col = lx.data.get_column(&lx.data); break;
         case 'R': { unsigned b = 0, r = 0, c = 0; sscanf(op, "R:%u:%u:%u", &b, &r, &c); ts_lexer_reset(&lx, (Length){b, {r, c}}); break; }
         default: continue;
       }
       print_state(&lx, first); first = 0;
       if (op[0] == 'F') printf(",%u", la_end);
+      if (op[0] == 'C') printf(",%u", col);
     }
     printf("\n");
     ts_lexer_delete(&lx); free((void *)s.doc); free(s.splits); free(rs);
